@@ -73,7 +73,7 @@ def programs(tier, seed):
         reps = 1
         for _ in range(reps):
             cmp_, side, pos, st = combos[k % len(combos)]; k += 7
-            T = TYPES[k % 3] if tier == 'thorough' else ('int' if k % 5 else 'long')
+            T = TYPES[k % 3] if tier == 'thorough' else ('unsigned int' if (k // 7) % 6 == 3 else ('int' if k % 5 else 'long'))
             heads.append((T, init, cmp_, side, bound, st, pos))
     progs = []; seen = set()
     for n, (T, init, cmp_, side, bound, st, pos) in enumerate(heads):
